@@ -127,6 +127,36 @@ def gen_op(rng, spec, guarded=True):
     return None
 
 
+def lone_job_move(spec, rng):
+    """the op that moves the only job of a server to another server of the same class (None if there is none)"""
+    reach_all = reachable_spec_names(spec)
+    for svn in sorted(spec["servers"]):
+        its_jobs = [j for j, o in spec["jobs"].items() if o["server"] == svn and j in reach_all]
+        others_ = [s_ for s_ in spec["servers"] if s_ != svn and spec["servers"][s_].get("cls", "Server") == spec["servers"][svn].get("cls", "Server")]
+        if len(its_jobs) == 1 and len([j for j, o in spec["jobs"].items() if o["server"] == svn]) == 1 and others_:
+            return {"op": "setlink", "kind": "jobs", "name": its_jobs[0], "attr": "server", "target": rng.choice(sorted(others_))}
+    return None
+
+
+def with_spare_server(spec, rng):
+    """(spec with one more server of the class of a used server, on its own storage and without jobs; ops that move the
+    jobs of that used server to it one by one — the used server and its storage end without any load)"""
+    sp = copy.deepcopy(spec)
+    reach_all = reachable_spec_names(sp)
+    used = sorted(s_ for s_ in sp["servers"] if s_ in reach_all)
+    if not used:
+        return spec, []
+    src = rng.choice(used)
+    stn, svn = f"st{len(sp['storages'])}x", f"sv{len(sp['servers'])}x"
+    sp["storages"][stn] = copy.deepcopy(sp["storages"][sp["servers"][src]["storage"]])
+    sp["storages"][stn]["fixed_nb_of_instances"] = None
+    sp["servers"][svn] = dict(copy.deepcopy(sp["servers"][src]), storage=stn, fixed_nb_of_instances=None)
+    jobs = sorted(j for j, o in sp["jobs"].items() if o["server"] == src)
+    if any(sp["jobs"][j]["data_stored"]["m"] < 0 for j in jobs):
+        return spec, []       # a deleting job needs the base need of its storage
+    return sp, [{"op": "setlink", "kind": "jobs", "name": j, "attr": "server", "target": svn} for j in jobs]
+
+
 def corner_ops(rng, spec, guarded):
     """edits aimed at the legal corners the generator plants (specgen corner_topologies): giving time to a
     journey in which no time is spent, changing one of several equal-valued inputs, placing an idle job"""
@@ -191,6 +221,10 @@ def corner_ops(rng, spec, guarded):
     st_[2] = max(1, min(27, st_[2] + rng.choice([-1, 1])))
     if st_ != list(h_["start"]):
         ops.append({"op": "sethourly", "kind": "patterns", "name": pn_, "values": [round(rng.uniform(0.5, 400), 2) for _ in h_["values"]], "start": st_})
+    # the only job of a server moved to another server: the first one (and its storage) is left without any load
+    lone = lone_job_move(spec, rng)
+    if lone:
+        ops.append(lone)
     # a usage pattern taken out of the system, or put (back) into it
     sys_pats = spec["system"]["usage_patterns"]
     outside = [p for p in spec["patterns"] if p not in sys_pats and spec["patterns"][p]["devices"]]
@@ -604,11 +638,23 @@ def fixed_point_shard(args):
                 if i % 2 == 1 and history.has_shared_job(spec):
                     spec = specgen.unshare_jobs(spec)
                 live = Live(spec)
+                whatifs = []
                 for k_ in range(rng.randint(0, 3)):
                     # in every other case the history starts with an edit aimed at a corner (reordered steps, …)
                     op = corner_ops(rng, live.spec, True) if (i % 2 == 1 and k_ == 0) else None
                     if op is None:
                         op = gen_op(rng, live.spec, True)
+                    if i % 2 == 1 and rng.random() < 0.4 and not history.has_shared_job(live.spec):
+                        # a dated what-if made (and rolled back) before the edit: computing it leaves the model as it was
+                        from harness import sim_oracle as so_
+                        from efootprint.abstract_modeling_classes.modeling_update import ModelingUpdate
+                        o2 = history.gen_numeric_edit(rng, live.spec, kinds=["jobs", "steps", "servers", "storages"])
+                        if o2 and o2["name"] in reachable_spec_names(live.spec) and safe_after(live, o2) and o2["param"] != "fixed_nb_of_instances":
+                            sim_ = ModelingUpdate(so_.build_changes(live, [o2]), simulation_date=so_.period(live)[0])
+                            if rng.random() < 0.5:
+                                sim_.set_updated_values()
+                                sim_.reset_values()
+                            whatifs.append(op_label(o2))
                     if op and safe_after(live, op):
                         if live.apply(op)[0] == "err":
                             break
@@ -617,7 +663,8 @@ def fixed_point_shard(args):
         if live.log and live.log[-1][1] == "err":
             continue
         out["cases"] += 1
-        ops = [l[0] for l in live.log]
+        out["whatifs"] = out.get("whatifs", 0) + len(whatifs)
+        ops = [l[0] for l in live.log] + [{"op": "whatif-before-an-edit", "label": w} for w in whatifs]
         before = live.rs.observe()
         inputs_before = input_snapshot(live)
         names = [n_ for n_ in live.reachable_names() if live.rs.objs[n_].calculated_attributes]
